@@ -70,15 +70,19 @@ def run(tier: str, seed: int, replay=None) -> int:
         "design": ([("MPSLifeMC_arch_quick", 210, 3, "arch"), ("MPSLifeMC_tuples_quick", 150, 1, "tuples"),
                     ("MPSLifeMC_ne16_quick", 140, 2, "ne16"), ("MPSLifeMC_pc_quick", 400, 50, "perchannel"),
                     ("MPSLifeMC_d1_quick", 120, 3, "arch1d"), ("MPSLifeMC_d1pc_quick", 160, 40, "perchannel1d"),
-                    ("MPSLifeMC_reuse_quick", 105, 3, "reuse"), ("MPSLifeMC_hist_quick", 300, 50, "histories")] if q else
+                    ("MPSLifeMC_reuse_quick", 105, 3, "reuse"), ("MPSLifeMC_hist_quick", 300, 50, "histories"),
+                    ("MPSLifeMC_modes_quick", 250, 60, "modes"), ("MPSLifeMC_export_quick", 150, 40, "weightsteps"),
+                    ("MPSLifeMC_opts_quick", 90, 3, "convopts")] if q else
                    [("MPSLifeMC_arch_quick", 0, 0, "arch"), ("MPSLifeMC_arch_thorough", 1500, 3, "arch4"),
                     ("MPSLifeMC_tuples_thorough", 2000, 2, "tuples"), ("MPSLifeMC_ne16_quick", 2000, 2, "ne16"),
                     ("MPSLifeMC_few_thorough", 1200, 3, "few"), ("MPSLifeMC_pc_quick", 4500, 500, "perchannel"),
                     ("MPSLifeMC_pc_thorough", 5400, 200, "perchannel3"), ("MPSLifeMC_d1_quick", 0, 0, "arch1d"),
                     ("MPSLifeMC_d1_thorough", 1200, 3, "arch1d4"), ("MPSLifeMC_d1pc_quick", 1500, 200, "perchannel1d"),
                     ("MPSLifeMC_reuse_thorough", 1500, 3, "reuse"), ("MPSLifeMC_reuse1d_thorough", 600, 3, "reuse1d"),
-                    ("MPSLifeMC_hist_thorough", 4000, 120, "histories"), ("MPSLifeMC_histpc_quick", 1500, 300, "histories-pc")]),
-        "sanity": ["MPSLifeMC_nokf05", "MPSLifeMC_pinned"],
+                    ("MPSLifeMC_hist_thorough", 4000, 120, "histories"), ("MPSLifeMC_histpc_quick", 1500, 300, "histories-pc"),
+                    ("MPSLifeMC_modes_thorough", 2500, 150, "modes"), ("MPSLifeMC_export_thorough", 1500, 100, "weightsteps"),
+                    ("MPSLifeMC_opts_quick", 0, 0, "convopts"), ("MPSLifeMC_opts1d_quick", 0, 0, "convopts1d")]),
+        "sanity": ["MPSLifeMC_nokf05", "MPSLifeMC_pinned", "MPSLifeMC_cachefwd"],
         "n_random": 70 if q else 700, "random_sels": 2 if q else 3, "max_nodes": 9 if q else 12, "p_pc": 0.5,
         "procs": 8, "tlc_workers": 8,
     }
